@@ -447,6 +447,11 @@ func (f *Frame) run(reach0 string) {
 				if f.top && entryPhi[p].tup == nil {
 					vc.firstIter = append(vc.firstIter, eq(v.t, entryPhi[p].t))
 				}
+				// induction variable: every back edge adds a positive constant, so it never falls
+				// below its entry value (automatic invariant; integers are mathematical, A1)
+				if vc.te.sortOf(p.Type()) == "Int" && entryPhi[p].t != "" && monotoneUp(p, b) {
+					f.assume(app(">=", v.t, entryPhi[p].t))
+				}
 			}
 			f.assumeInvariants(li, phis, st)
 			li.measure0 = f.evalMeasure(li, phis, st)
